@@ -34,7 +34,10 @@ Shapes == {"unit_struct", "tuple0", "tuple1", "tuple1_unit", "tuple2", "named0",
            \* field types containing EXPRESSIONS: an array length that is a constant's path, a call, a const block
            "array_const",
            \* field-less items that nevertheless have a where-clause
-           "unit_where", "tuple0_where", "named0_where", "enum_empty_where"}
+           "unit_where", "tuple0_where", "named0_where", "enum_empty_where",
+           \* enums with EXPLICIT DISCRIMINANTS of every spelling rustc accepts for the repr: literals at and beyond the
+           \* ends of isize / i64 / u64 (decimal, hex with separators, suffixed), casts, shifts, blocks, char literals
+           "enum_disc64", "enum_disc128", "enum_disc_exprs"}
 \* "field_pair": the first AND the second field carry an attribute each (two bodies): the derives that read all
 \* fields' attributes together (which marks may be mixed) have code only this reaches
 Positions == {"none", "item", "variant", "field", "field_pair"}
@@ -60,8 +63,10 @@ Bodies == {"bare", "empty_parens", "ident", "two_idents", "unknown_ident", "int_
 HasPosition(shape, pos) ==
     CASE pos = "none" -> TRUE
       [] pos = "item" -> TRUE
-      [] pos = "variant" -> shape \in {"enum_unit", "enum_tuple", "enum_named", "enum_mixed", "generic_enum", "raw_names", "raw_unit_enum"}
+      [] pos = "variant" -> shape \in {"enum_unit", "enum_tuple", "enum_named", "enum_mixed", "generic_enum", "raw_names", "raw_unit_enum",
+                                           "enum_disc64", "enum_disc128", "enum_disc_exprs"}
       [] pos = "field" -> shape \notin {"unit_struct", "tuple0", "named0", "enum_empty", "enum_unit", "raw_unit_enum",
-                                          "unit_where", "tuple0_where", "named0_where", "enum_empty_where"}
+                                          "unit_where", "tuple0_where", "named0_where", "enum_empty_where",
+                                          "enum_disc64", "enum_disc128", "enum_disc_exprs"}
       [] pos = "field_pair" -> shape \in {"tuple2", "named2", "enum_mixed", "raw_struct", "union", "array_const"}
 =============================================================================
